@@ -1462,3 +1462,19 @@ def b_track_lift_tr(tier, rnd):
 @battery("track_lift")
 def b_track_lift(tier, rnd):
     return {"rule": "8 tracks of 0..3 bars", "cases": [(t,) for t in _lift_tracks(rnd)]}
+
+
+@battery("fingerings")
+def b_fingerings(tier, rnd):
+    import itertools
+    cases = []
+    for k in range(1, 5):
+        for f in itertools.product((0, 1, 2, 3, 5), repeat=k):
+            if any(f):
+                cases.append((list(f),))
+    for _ in range(300):
+        f = [rnd.choice([0, 0, 1, 2, 3, 4, 7, 12, 24]) for _j in range(rnd.choice([5, 6, 7]))]
+        if any(f):
+            cases.append((f,))
+    return {"rule": "every fingering of 1..4 strings over frets {0,1,2,3,5} with a pressed string; 300 seeded ones of 5..7 strings",
+            "exhaustive_upto": 4, "cases": cases}
